@@ -20,6 +20,7 @@ RULE = ('Cases = generated scene (exact_counts 50% with 1-5 flat layers of exact
 ASSUMPTIONS = ['the cropped-hit count is computed by the harness from the input rows (crop model), not from '
                'the chunk flag', 'crashes of run() are left to C08']
 BUDGET = {'quick': 1200, 'thorough': 40000}
+CORPUS = 'pipeline'
 COVER_TABLE = ('cells = (okta-class tuple of the layers table with <= 4 rows: 781 tuples) x (pattern of rows at/above the '
                'MSA) x (number of cropped hits > MAX_HITS_OKTA0)')
 WEIGHTS = {'exact_counts': 10, 'layered': 4, 'merge_chain': 2, 'degenerate': 2, 'ref_window': 2}
